@@ -303,9 +303,12 @@ def _explore_job(args):
         return ("err", spec, f"{type(e).__name__}: {e}\n{traceback.format_exc()}")
 
 
-def explore_many(specs, *, workers=None, on_result=None, **kw) -> Stats:
-    """Explore many independent scenarios, one per worker process at a time."""
+def explore_many(specs, *, workers=None, on_result=None, weight=None, **kw) -> Stats:
+    """Explore many independent scenarios, one per worker process at a time.
+    `weight(spec)`: optional size estimate; heavier scenarios are started first (results are merged, order is irrelevant)."""
     import multiprocessing as mp
+    if weight is not None:
+        specs = sorted(specs, key=weight, reverse=True)
     total = Stats(bound=kw.get("bound"))
     t0 = time.time()
     workers = workers or min(16, os.cpu_count() or 1)
@@ -315,7 +318,7 @@ def explore_many(specs, *, workers=None, on_result=None, **kw) -> Stats:
         pool = None
     else:
         pool = mp.get_context("fork").Pool(workers)
-        it = pool.imap(_explore_job, jobs, chunksize=1)
+        it = pool.imap_unordered(_explore_job, jobs, chunksize=1) if weight is not None else pool.imap(_explore_job, jobs, chunksize=1)
     per = []
     try:
         for status, spec, st in it:
